@@ -69,12 +69,12 @@ def blocks(tier, seed, prop='C01'):
     for r in ('R1', 'R3'):
         tx = MAIN_TX[r]
         L = panel.get(r).tx_len(tx)
-        starts = list(range(6, L - 12, 6))
+        starts = list(range(6, L - 12, 12))
         if tier == 'quick':
             chosen = [starts[i] for i in vlib.seeded_windows(seed, len(starts), 2, always=(3,))] if r == 'R1' else \
                 [starts[i] for i in vlib.seeded_windows(seed, len(starts), 1, always=())]
         else:
-            chosen = starts[::2]
+            chosen = starts
         for st in chosen:
             out.append((f'MNV3/{r}/p{st}', E.mnv3_cases(r, tx, CFG_NONE, st, st + 3), dict(deviations=3, window=[st, st + 3])))
     # CFG-enz: D1 under rules covering every context shape (no look-ahead, look-behind only, both, long)
@@ -85,7 +85,7 @@ def blocks(tier, seed, prop='C01'):
                 'proteinase k', 'thrombin', 'enterokinase', 'caspase 3', 'factor xa']
     for rule in enz:
         for r in (('R1', 'R3') if tier == 'thorough' else ('R1',)):
-            for m in ((0, 2) if tier == 'thorough' else (1,)):
+            for m in ((0, 2) if tier == 'thorough' else (2,)):      # quick must be a subset of thorough
                 cfg = E.Cfg(rule=rule, exception=None, misc=m, min_length=5)
                 out.append((f'ENZ/{r}/{rule}/m{m}', E.d1_cases(r, MAIN_TX[r], cfg), dict(deviations=1, rule=rule, misc=m)))
     out += novel_blocks(tier, seed)
@@ -114,9 +114,9 @@ def fusion_cases(refname, donor, acc, stride, cfg, intronic=False, small=()):
         dint = [g for (a, b), (c, d) in zip(dex, dex[1:]) for g in range(b + 1, c + 1, stride)]
         aint = [g for (a, b), (c, d) in zip(aex, aex[1:]) for g in range(b, c, stride)]
         for dpos in dint:
-            for q in range(0, La - 1, max(stride * 3, 7)):
+            for q in range(0, La - 1, stride * 7):
                 out.append(E.Case(refname, fusions=(CV.Fusion(donor, dpos, acc, ref.tx_to_gene(acc, q)),), cfg=cfg))
-        for p in range(10, Ld, max(stride * 3, 7)):
+        for p in range(10, Ld, stride * 7):
             dpos = ref.tx_to_gene(donor, p - 1) + 1
             for apos in aint:
                 out.append(E.Case(refname, fusions=(CV.Fusion(donor, dpos, acc, apos),), cfg=cfg))
@@ -168,18 +168,18 @@ def as_records(refname, tx):
 def novel_blocks(tier, seed):
     out = []
     q = tier == 'quick'
-    st = 5 if q else 2
+    st = 4 if q else 2          # quick strides are multiples of the thorough strides (quick is a subset of thorough)
     out.append(('FUS/R7/A1>B1', fusion_cases('R7', 'ENST0A1', 'ENST0B1', st, CFG_NONE), dict(deviations=1)))
-    out.append(('FUS/R7/B1>A1', fusion_cases('R7', 'ENST0B1', 'ENST0A1', st if not q else 7, CFG_NONE), dict(deviations=1)))
-    out.append(('FUS/R7/A3>B1', fusion_cases('R7', 'ENST0A3', 'ENST0B1', st if not q else 7, CFG_NONE), dict(deviations=1)))
+    out.append(('FUS/R7/B1>A1', fusion_cases('R7', 'ENST0B1', 'ENST0A1', st if not q else 6, CFG_NONE), dict(deviations=1)))
+    out.append(('FUS/R7/A3>B1', fusion_cases('R7', 'ENST0A3', 'ENST0B1', st if not q else 6, CFG_NONE), dict(deviations=1)))
     out.append(('FUS/R7/intronic', fusion_cases('R7', 'ENST0A1', 'ENST0B1', 3 if q else 1, CFG_NONE, intronic=True), dict(deviations=1)))
     out.append(('FUS/R7/intronic-rev', fusion_cases('R7', 'ENST0B1', 'ENST0A1', 3 if q else 1, CFG_NONE, intronic=True), dict(deviations=1)))
     # fusion + one small variant on the donor or the accepter transcript (main call and fusion call of the same
     # transcript share labels: entry uniqueness, attribution, junction-spanning variant peptides)
     ref7 = panel.get('R7')
-    fz = fusion_cases('R7', 'ENST0A1', 'ENST0B1', 17 if q else 7, CFG_NONE)
-    sm = [E.small_alphabet(ref7, 'ENST0A1', p, reduced=True)[0] for p in range(8, ref7.tx_len('ENST0A1') - 3, 11 if q else 5)]
-    sm += [E.small_alphabet(ref7, 'ENST0B1', p, reduced=True)[0] for p in range(8, ref7.tx_len('ENST0B1') - 3, 17 if q else 7)]
+    fz = fusion_cases('R7', 'ENST0A1', 'ENST0B1', 14 if q else 7, CFG_NONE)
+    sm = [E.small_alphabet(ref7, 'ENST0A1', p, reduced=True)[0] for p in range(8, ref7.tx_len('ENST0A1') - 3, 10 if q else 5)]
+    sm += [E.small_alphabet(ref7, 'ENST0B1', p, reduced=True)[0] for p in range(8, ref7.tx_len('ENST0B1') - 3, 14 if q else 7)]
     out.append(('FUS/R7/A1>B1/+snv', [E.Case('R7', fusions=f.fusions, small=(v,), cfg=CFG_NONE) for f in fz for v in sm],
                 dict(deviations=2)))
     # several units of one transcript in one run: SNV + fusion + circRNA, SNV + two fusions with different breakpoints
@@ -192,7 +192,7 @@ def novel_blocks(tier, seed):
         fzb = [f.fusions[0] for f in allf if f.fusions[0].donor_pos == bp]
         fpick.append(fzb[len(fzb) // 3])
     csel = [c.circs[0] for c in circ_cases('R7', 'ENST0A1', CFG_NONE)]
-    usnv = [E.small_alphabet(ref7, 'ENST0A1', p, reduced=True)[0] for p in range(12, ref7.tx_len('ENST0A1') - 6, 13 if q else 7)]
+    usnv = [E.small_alphabet(ref7, 'ENST0A1', p, reduced=True)[0] for p in range(12, ref7.tx_len('ENST0A1') - 6, 14 if q else 7)]
     ucases = []
     for v in usnv:
         for f1 in fpick:
@@ -207,16 +207,16 @@ def novel_blocks(tier, seed):
     f2cases = []
     a1, a3 = ref7.exons_gene('ENST0A1'), ref7.exons_gene('ENST0A3')
     shared = [g for (s, e) in a3 for g in range(s, e) if any(s1 <= g < e1 for s1, e1 in a1)]
-    for p in range(10, ref7.tx_len('ENST0B1') - 10, 23 if q else 9):
+    for p in range(10, ref7.tx_len('ENST0B1') - 10, 18 if q else 9):
         dpos = ref7.tx_to_gene('ENST0B1', p - 1) + 1
-        for g in shared[5::17 if q else 7]:
+        for g in shared[5::14 if q else 7]:
             f2cases.append(E.Case('R7', fusions=(CV.Fusion('ENST0B1', dpos, 'ENST0A1', g), CV.Fusion('ENST0B1', dpos, 'ENST0A3', g)), cfg=CFG_NONE))
     out.append(('FUS2/R7/B1>A1+A3', f2cases, dict(deviations=2)))
     # intragenic fusion (donor and accepter transcripts of the same gene) + one small variant on either side
     igc = []
-    for p in range(12, ref7.tx_len('ENST0A1') - 20, 29 if q else 11):
+    for p in range(12, ref7.tx_len('ENST0A1') - 20, 22 if q else 11):
         dpos = ref7.tx_to_gene('ENST0A1', p - 1) + 1
-        for qa in range(20, ref7.tx_len('ENST0A3') - 6, 31 if q else 13):
+        for qa in range(20, ref7.tx_len('ENST0A3') - 6, 26 if q else 13):
             f = CV.Fusion('ENST0A1', dpos, 'ENST0A3', ref7.tx_to_gene('ENST0A3', qa))
             igc.append(E.Case('R7', fusions=(f,), cfg=CFG_NONE))
             for v in usnv[::2]:
